@@ -109,7 +109,7 @@ Lemma abs_length T : length (abs_list T) = sumf (length T) (lv T).
 Proof.
   unfold lv. rewrite (sumf_map_nth T (fun o => match o with Some e => lvb e | None => 0 end)).
   induction T as [|e T IH]; [reflexivity|]. cbn [abs_list flat_map map list_sum]. fold (abs_list T).
-  rewrite app_length, IH. unfold lvb at 2, ie_live. destruct (ie_val e); cbn; lia.
+  rewrite app_length, IH. unfold lvb at 2, ie_live. unfold list_sum. destruct (ie_val e); cbn [length fold_right]; lia.
 Qed.
 
 (* ---------------------------------------------------------------- id_find *)
@@ -149,7 +149,7 @@ Proof.
       { exfalso. apply andb_true_iff in Em. destruct Em as [Ek El]. apply N.eqb_eq in Ek.
         apply (Dmin n); [lia|]. eapply (ti_uniq T HT); eauto. congruence. }
       assert (Sk: 1 <= ie_skips e').
-      { eapply skips_ge_cross; eauto. unfold epref, edist. rewrite Kc. fold s. fold d.
+      { apply (skips_ge_cross c e (path (2 ^ k) s n) e' Hc Lc He'). unfold epref, edist. rewrite Kc. fold s. fold d.
         apply pref_In. exists n. split; [lia|reflexivity]. }
       destruct (ie_skips e' =? 0) eqn:E0; [apply Nat.eqb_eq in E0; lia|].
       rewrite HL, id_next_nxt. change (nxt (2 ^ k) (path (2 ^ k) s n)) with (path (2 ^ k) s (S n)).
@@ -212,7 +212,7 @@ Proof.
   intros HI Hd. unfold id_find. destruct (id_count m =? 0) eqn:E0; [reflexivity|].
   destruct (mi_cap m HI) as [Z|(k & Hk & Hcap)].
   - apply (MInv_cap0 m HI) in Z. apply Nat.eqb_neq in E0. tauto.
-  - rewrite Hcap. eapply find_loop_dead; eauto. apply (mi_tinv m HI).
+  - rewrite Hcap. exact (find_loop_dead (id_entries m) k Hcap id Hd).
 Qed.
 
 (* id_find decides liveness *)
